@@ -16,6 +16,7 @@ import GemseoVerif.Lemmas.C09
 import GemseoVerif.Lemmas.C09Par
 import GemseoVerif.Lemmas.C09Mat
 import GemseoVerif.Lemmas.C09Sel
+import GemseoVerif.Lemmas.C09Eval
 
 namespace GV.C09
 
@@ -268,6 +269,76 @@ theorem request_history_exact [BlockOne β] [LawfulOne β]
 
 end
 
+/-! ### Histories of executions and linearizations: where the disciplines are linearized
+
+The theorems above take the Jacobian dictionaries of the disciplines as given.  `section Eval` of
+the model says at which data each discipline computes its dictionary, as a function of the state
+the history of the process left (data held by every discipline, contents of the caches of the
+disciplines, of the chain, of the `MDAChain` wrapper).  The statements below hold for every type of
+names and of values, every list of disciplines whose functions read their inputs only
+(`EDisc.Local`; a discipline may overwrite any of its inputs), every cache policy of every object,
+every history of `execute(x)` / `linearize(x, execute=…)` calls and every point. -/
+
+section
+variable {V D : Type} [DecidableEq V] [DecidableEq D]
+
+/-- **History independence of the linearization points (MDOChain).**  After any history on a fresh
+    chain, `linearize(x, execute=e)` makes every discipline compute its Jacobian at the data the
+    sequential composition gives it from `x` (`specPoints`: no state, no cache) — also when the
+    outputs of the chain at `x` are served by its cache while the disciplines hold the data of
+    another point, and for a discipline whose data at its inputs are the values it has written. -/
+theorem linearization_points_history (c : EChain V D) (hl : ∀ d ∈ c.kids, d.Local)
+    (d0 : Env V D) (ops : List (EOp V D)) (x : Env V D) (e : Bool) :
+    PointsAgree c.kids (c.lin (c.run (ChState.fresh c.kids.length d0) ops) x e).2
+      (specPoints c.kids x) :=
+  chain_lin_points c hl _ (chain_run_inv c hl ops _ (fresh_inv c d0)).1 x e
+
+/-- **The same for `MDAChain(chain_linearize=True)`**, a cached wrapper of its `MDOChain`
+    (whatever the `execute` argument it passes to the inner `linearize`). -/
+theorem mdachain_points_history (c : EChain V D) (hl : ∀ d ∈ c.kids, d.Local) (w : CacheKind)
+    (d0 : Env V D) (ops : List (EOp V D)) (x : Env V D) (e ie : Bool) :
+    PointsAgree c.kids (mdaLin c w (mdaRun c w (MState.fresh c.kids.length d0) ops) x e ie).2
+      (specPoints c.kids x) :=
+  mda_lin_points c hl w _ (mda_run_inv c hl w ops _ (mfresh_inv c d0)) x e ie
+
+/-- **Executions return the composed function after any history** (cache hits included): the data
+    the next discipline / the enclosing process receives are the specified ones.  With
+    `EChain.asDisc_local` this makes a chain a discipline of an enclosing chain (nesting). -/
+theorem execution_history_exact (c : EChain V D) (hl : ∀ d ∈ c.kids, d.Local)
+    (d0 : Env V D) (ops : List (EOp V D)) (x : Env V D) (v : V) (hv : v ∈ chainOuts c.kids) :
+    (c.exec (c.run (ChState.fresh c.kids.length d0) ops) x).own.data v = chainFun c.kids x v :=
+  chain_exec_data c hl _ (chain_run_inv c hl ops _ (fresh_inv c d0)) x v hv
+
+end
+
+section
+variable {V D : Type} [DecidableEq V] [DecidableEq D] [Fintype V] {β : V → V → Type} [BlockOps β]
+  [∀ o i, AddCommMonoid (β o i)] [LawfulBlocks β]
+
+/-- **Any history, exact total derivative at the requested point.**  `J d p` is the Jacobian
+    dictionary the discipline `d` computes at the data `p` (a function of the values of its inputs,
+    `JLocal`).  After any history of executions and linearizations at any points, the block
+    `MDOChain.linearize(x)` returns for `(o, i)` is the forward-mode total derivative of the
+    composition of the partial derivatives *taken along the execution from `x`* — the Jacobian at
+    `x` of the function the chain computes, not that of another visited point. -/
+theorem chain_history_exact [BlockOne β] [LawfulOne β]
+    (vars : List V) (hnd : vars.Nodup) (hall : ∀ v, v ∈ vars)
+    (c : EChain V D) (hl : ∀ d ∈ c.kids, d.Local)
+    (J : EDisc V D → Env V D → DJac β) (hJ : JLocal J) (hwf : ∀ d p, (J d p).WF)
+    (d0 : Env V D) (ops : List (EOp V D)) (x : Env V D) (e : Bool)
+    (o i : V) (ho : ∃ d ∈ c.kids, o ∈ d.outs) :
+    chainJac vars zeroFill
+        (discsAt J c.kids (c.lin (c.run (ChState.fresh c.kids.length d0) ops) x e).2) o i
+      = fwd (discsAt J c.kids (specPoints c.kids x)) (seedAt i) o := by
+  rw [discsAt_congr J hJ c.kids _ _ (linearization_points_history c hl d0 ops x e)]
+  apply reverse_eq_forward_unit vars hnd hall
+  · intro d' hd'
+    obtain ⟨d, _, p, hp⟩ := discsAt_mem J c.kids _ d' hd'
+    rw [hp]; exact hwf d p
+  · exact discsAt_out J o c.kids _ (specPoints_length c.kids x) ho
+
+end
+
 /-! ### Non-vacuity examples and witnesses of the defects of the pinned tree -/
 
 section Examples
@@ -353,6 +424,50 @@ theorem pinned_parallel_wrong_on_output_written_twice :
 example : (addJac (β := ConstBlocks (Fin 3) Int) (fun _ _ => (0 : Int)) [2] parDup 2 0).toS = 7
     ∧ (addJac (β := ConstBlocks (Fin 3) Int) (fun _ _ => (0 : Int)) [2] parDup 2 1).toS = 3 := by
   decide
+
+theorem inplace2_wf : ∀ d ∈ inplace2, d.jac.WF := by
+  intro d hd
+  simp only [inplace2, List.mem_cons, List.not_mem_nil, or_false] at hd
+  rcases hd with rfl | rfl | rfl <;> exact mkDisc_wf _ _ _ (by decide)
+
+/-- `reverse_eq_forward_unit` on a discipline that reads and overwrites TWO variables with
+    cross-dependence (`(a, b) := (5a + 7b, 11a + 13b)` between `a = 2x, b = 3x` and
+    `o = 17a + 19b`): the block is `17·31 + 19·61`.  (The hypotheses of the chain theorems allow
+    any overlap between the inputs and the outputs of a discipline; `ValidChain.order` only
+    constrains *distinct* positions.) -/
+example : (fwd inplace2 (seedAt 0) 3 : ConstBlocks (Fin 4) Int 3 0).toS = 1686 := by
+  rw [← reverse_eq_forward_unit [0, 1, 2, 3] (by decide) (by decide) inplace2 inplace2_wf 3
+    ⟨mkDisc [1, 2] [3] [(3, 1, 17), (3, 2, 19)], by simp [inplace2], by simp [mkDisc]⟩ 0]
+  decide
+
+/-- Composing the two overwritten variables one after the other in the SAME dictionary (popping
+    `b` after `a` has been composed, instead of popping both first) gives another value: the model
+    pops first (`stepRow`), as the code does. -/
+example : (chainJac (β := ConstBlocks (Fin 4) Int) [0, 1, 2, 3] (fun _ _ => (0 : Int)) inplace2 3 0).toS
+    = 1686 := by decide
+
+/-- `linearization_points_history` is not vacuous: `D0: a = 3x; D1: a := a²` with a chain cache
+    keeping all the evaluations; after `execute(x=2)`, `execute(x=5)`, the request at `x = 2`
+    (served by the cache of the chain) linearizes `D0` at `x = 2` and `D1` at `a = 6` (values of the input of each discipline). -/
+example :
+    let r := ((inplaceSquare .full).lin ((inplaceSquare .full).run (ChState.fresh 2 (env2 0 0))
+      [.exec (env2 2 0), .exec (env2 5 0)]) (env2 2 0) true).2
+    (r.zip [0, 1]).map (fun pv => pv.1 pv.2) = [2, 6] := by decide
+
+/-- **Witness of the defect of the pinned tree (stale linearization point).**  On the same history
+    the pinned `reverse_chain_rule` (`EChain.linOld`: every discipline linearized at the data it
+    currently holds) linearizes `D0` at `x = 5` — the other point — and `D1` at `a = 225`. -/
+theorem pinned_chain_linearizes_at_stale_point :
+    let r := ((inplaceSquare .full).linOld ((inplaceSquare .full).run (ChState.fresh 2 (env2 0 0))
+      [.exec (env2 2 0), .exec (env2 5 0)]) (env2 2 0) true).2
+    (r.zip [0, 1]).map (fun pv => pv.1 pv.2) = [5, 225] := by decide
+
+/-- **Witness of the defect of the pinned tree (overwritten input).**  Without any history, the
+    pinned code linearizes `D1: a := a²` at the value it has written (`a = 36`) instead of the value
+    it has read (`a = 6`). -/
+theorem pinned_chain_linearizes_at_overwritten_input :
+    let r := ((inplaceSquare .simple).linOld (ChState.fresh 2 (env2 0 0)) (env2 2 0) true).2
+    (r.zip [0, 1]).map (fun pv => pv.1 pv.2) = [2, 36] := by decide
 
 /-- The matrix instance: blocks of shape `|o| × |i|` over `ℚ`-like semirings satisfy the laws. -/
 example (sz : Fin 3 → ℕ) : LawfulBlocks (MatBlocks sz Int) := inferInstance
